@@ -21,7 +21,11 @@ GENERIC = (
     "burning the pair's own idle LP; guards keyed on first-provision minimums at withdrawal; Send instead of Transfer for "
     "refunds; anything that only acts when two different asset sets share one registry key; a single attached coin of the "
     "wrong denom; token-factory style denoms naming the caller; aliasing the router / pair / LP token as receiver; tiny "
-    "first provisions; amounts or cumulative payouts beyond 2^128; unfunded provisions on a funded pair"
+    "first provisions; amounts or cumulative payouts beyond 2^128; unfunded provisions on a funded pair; a parser or table "
+    "wrong for one number of fractional digits; assert! turned into debug_assert! (release-profile-only behaviour); a second, "
+    "stale copy of the asset decimals or of the LP supply kept in the pair's storage; internal router messages accepted when "
+    "'prepaid'; dust top-ups of very deep pools; wrong ordering of values above 2^128; a hook naming less than the amount sent; "
+    "0 used as a 'not registered' sentinel"
 )
 
 
